@@ -283,7 +283,9 @@ def normalize_path(path):
     """Make a path absolute by resolving ``..`` elements."""
     progress = []
     for step in path:
-        if step == '..' and len(progress) > 0:
+        # ('..' steps above the start of the path are kept: they do not
+        # cancel each other)
+        if step == '..' and len(progress) > 0 and progress[-1] != '..':
             progress = progress[:-1]
         else:
             progress.append(step)
